@@ -55,6 +55,18 @@ class BFSFamily(Family):
         return 0
 
     # -- replay of one history without the explorer -------------------------------------------
+    def replay_repeat(self, history):
+        """Apply the last op of `history` twice to (copies of) the same pre-state; do the results differ?"""
+        label = history[0]
+        ops = [_thaw(o) for o in history[1:]]
+        state = dict(self.spec.initial())[label]
+        for op in ops[:-1]:
+            state = self.spec.step(pickle.loads(pickle.dumps(state)), op, Obs())
+        blob = pickle.dumps(state)
+        k1 = self.spec.key(self.spec.step(pickle.loads(blob), ops[-1], Obs()))
+        k2 = self.spec.key(self.spec.step(pickle.loads(blob), ops[-1], Obs()))
+        return k1 != k2
+
     def replay(self, history):
         label = history[0]
         ops = history[1:]
@@ -157,7 +169,13 @@ def _expand_chunk(task):
                 except Exception:  # noqa: BLE001
                     k2 = None
                 if k2 != k:
-                    out["nondet"] = {"family": fam.name, "parent": pk, "op": jsonable(op)}
+                    # see engine._run_chunk: decided by the fresh-process replay (exit 2 if it does not reproduce)
+                    v = {"site": fam.name, "clause": "repeated-call-differs", "cls": "", "detail": f"op {op!r} applied twice to the same state gave two different states"}
+                    sig = (v["site"], v["clause"], v["cls"])
+                    out["sigs"][sig] += 1
+                    out["n_viol"] += 1
+                    if out["sigs"][sig] <= 2:
+                        out["violations"].append(dict(v, family=fam.name, parent=pk, op=jsonable(op)))
             if k in local_seen:
                 out["succ"].append((k, None, pk, op))
                 continue
